@@ -462,6 +462,56 @@ def gen_respace():
     )
 
 
+# ---------------------------------------------------------------- a quoted name that spells an operator expression
+
+
+def check_quoted_vs_terms(case) -> Outcome:
+    """A column whose *name* spells an operator expression over other columns (`a:b`, `a + b`, `a*b`) next to that very
+    expression: the quoted name is one column of the data, the expression is what the operators make of the other
+    columns, and neither absorbs, cancels or replaces the other (oracle: the columns of the data and their products)."""
+    import pandas as pd
+    from ..libio import model_matrix
+
+    out = Outcome()
+    p_, q_ = case["p"], case["q"]
+    op = case["op"]
+    qn = (f"{q_}{op}{p_}" if case["flip"] else f"{p_}{op}{q_}")
+    df = pd.DataFrame({p_: [1.0, 2.0, 3.0, 5.0], q_: [2.0, 5.0, 7.0, 11.0], qn: [10.0, 20.0, 40.0, 90.0], "w": [0.5, 0.25, 4.0, 8.0]})
+    P, Q, N_, W = (df[c].to_numpy() for c in (p_, q_, qn, "w"))
+    shapes = {
+        "sum": (f"`{qn}` + {p_}:{q_} - 1", [N_, P * Q]),
+        "sum-rev": (f"{p_}:{q_} + `{qn}` - 1", [P * Q, N_]),
+        "star-minus": (f"{p_}*{q_} - `{qn}` - 1", [P, Q, P * Q]),
+        "minus-inter": (f"`{qn}` + {p_} + {q_} - {p_}:{q_} - 1", [N_, P, Q]),
+        "expand": (f"({p_}+{q_}):({p_}+{q_}) + `{qn}` - 1", [P, Q, N_, P * Q]),
+        "nested": (f"`{qn}`:w + {p_}:{q_}:w - 1", [N_ * W, P * Q * W]),
+        "power": (f"({p_}+{q_}+`{qn}`)**2 - 1", [P, Q, N_, P * Q, P * N_, Q * N_]),
+    }
+    s, exp = shapes[case["shape"]]
+    out.nontrivial = op == ":"
+    out.label("quoted-operator-name:" + op.strip(), "shape:" + case["shape"])
+    feat = dict(shape=case["shape"], op=op.strip(), flip=case["flip"])
+    try:
+        mm = model_matrix(s, df, output="numpy")
+    except Exception as e:
+        out.fail("quoted-vs-terms-rejected", f"{s!r}: {type(e).__name__}: {str(e)[:160]}", **feat)
+        return out
+    got = np.asarray(mm, dtype=float)
+    key = lambda col: tuple(np.round(col, 9).tolist())
+    if got.ndim != 2 or sorted(key(got[:, j]) for j in range(got.shape[1])) != sorted(key(e) for e in exp):
+        out.fail("quoted-vs-terms-columns", f"{s!r} with a column called {qn!r}: columns {list(mm.model_spec.column_names)} hold {got.T.tolist()}, expected (in some order) {[e.tolist() for e in exp]}", **feat)
+    return out
+
+
+def gen_quoted_vs_terms():
+    ident = st.sampled_from(["a", "b", "x", "zz2", "A_1"])
+    return st.builds(
+        lambda p_, q_, op, flip, shape: {"p": p_, "q": q_, "op": op, "flip": flip, "shape": shape},
+        ident, ident, st.sampled_from([":", ":", ":", " + ", "*", " : "]), st.booleans(),
+        st.sampled_from(["sum", "sum-rev", "star-minus", "minus-inter", "expand", "nested", "power"]),
+    ).filter(lambda c: c["p"] != c["q"])
+
+
 N = {"quick": (1500, 1200, 900, 2500), "thorough": (20000, 15000, 12000, 30000)}
 BUDGET_S = {"quick": 90, "thorough": 1500}
 
@@ -473,4 +523,5 @@ def campaigns(tier, shard=0, nshards=1):
         Campaign("quoted", gen_quoted(), check_quoted, n[1]),
         Campaign("verbatim", gen_verbatim(), check_verbatim, n[2]),
         Campaign("spans", gen_spans(), check_spans, n[3]),
+        Campaign("quoted-vs-terms", gen_quoted_vs_terms(), check_quoted_vs_terms, 300 if tier == "quick" else 2000),
     ]
